@@ -40,6 +40,12 @@ def check(ctx):
     run_premise(ctx, "C17", "R-IDS", "identifiers", "an identifier names at most one unfinished exchange",
                 "two unfinished publishes share an identifier: the acknowledgement of one settles the other, which then succeeds without "
                 "the acknowledgement its QoS level requires while the first never fires")
+    # "fires ... only on the ack its QoS level requires": while its connection is up nothing but the acknowledgement settles a publish - in
+    # particular not the session purge / resume at the CONNACK, which is meant for what an earlier connection left behind.  That the purge
+    # tells the two apart (alarm cleared by the loss path only, tested before an entry is touched) is C12's Y-MARK / Y-EXEMPT
+    run_premise(ctx, "C12", "R-PURGE", "carried-over", "the CONNACK purge fails only what an earlier connection left behind",
+                "a publish made on this connection is failed (or re-sent) by the session code at the CONNACK: its Deferred fires without "
+                "the acknowledgement, and the acknowledgement that follows finds nothing", only=lambda f: f.rule in ("Y-MARK", "Y-EXEMPT"))
     caps, pm, _ = capabilities(a)
     classes = [c for c in a.protos if "pub" in caps.get(c.qual, set())]
     ctx.floor("publisher-capable classes", len(classes), 2)
